@@ -186,6 +186,15 @@ META_NAMES = ['step started', 'step ended', 'event consumed', 'event sent', 'sta
               'state entered', 'transition processed']
 
 
+class Device:
+    """An object of the environment (a device handle): it can be copied, but neither deep-copied nor pickled."""
+
+    def __init__(self):
+        import threading
+        self.lock = threading.Lock()
+        self.lines = []
+
+
 class Mon:
     """State of a property statechart that turns final at the mfail-th meta-event of a call."""
 
